@@ -621,21 +621,21 @@ Definition sOptB (o : option (list (string * cvalue))) : sexp := sOpt sBindings 
 
 Definition run_args (e : sexp) : sexp :=
   match e with
-  | L [A "gen"; sn; sch; vs] =>
+  | L [A "gen"; sn; A rc; sch; vs] =>
       match dB sn, schema_of_sexp sch, dList vardef_of_sexp vs with
       | Some snake, Some Sc, Some vds =>
-          match generate Sc (naming Sc snake vds) vds with
+          match generate Sc (naming Sc snake [rc] vds) vds with
           | Some g => L [A "ok"; sGenerated g; sB (sig_ok g); sB (names_ok Sc snake vds);
                          sB (inputs_ok Sc snake); sB (g_f21 Sc)]
           | None => A "gen-error" end
       | _, _, _ => sErr "gen: decode" end
-  | L [A "call"; sn; sch; vs; kw] =>
+  | L [A "call"; sn; A rc; sch; vs; kw] =>
       match dB sn, schema_of_sexp sch, dList vardef_of_sexp vs, kwargs_of_sexp kw with
       | Some snake, Some Sc, Some vds, Some kwargs =>
-          L [sOutcome (call_method ser_inst FUEL Sc snake (naming Sc snake vds) vds kwargs);
-             sOutcome (call_subscribe ser_inst FUEL Sc snake (naming Sc snake vds) vds kwargs);
-             sB (typed_call FUEL Sc snake (naming Sc snake vds) vds kwargs);
-             sOptB (intended_vars ser_inst FUEL Sc snake (naming Sc snake vds) vds kwargs);
+          L [sOutcome (call_method ser_inst FUEL Sc snake (naming Sc snake [rc] vds) vds kwargs);
+             sOutcome (call_subscribe ser_inst FUEL Sc snake (naming Sc snake [rc] vds) vds kwargs);
+             sB (typed_call FUEL Sc snake (naming Sc snake [rc] vds) vds kwargs);
+             sOptB (intended_vars ser_inst FUEL Sc snake (naming Sc snake [rc] vds) vds kwargs);
              sB (forallb (fun p => constructed FUEL Sc snake (snd p)) kwargs)]
       | _, _, _, _ => sErr "call: decode" end
   | L [A "coerce"; sch; vs; prov] =>
